@@ -731,6 +731,9 @@ class ADCResponse(APCI):
 
     def to_knx(self) -> bytearray:
         """Serialize to KNX/IP raw data."""
+        if not 0 <= self.channel <= 63:
+            raise ConversionError("Channel out of range.")
+
         payload = struct.pack("!BBH", self.channel, self.count, self.value)
 
         return encode_cmd_and_payload(
@@ -773,6 +776,9 @@ class ADCRead(APCIRequest[ADCResponse]):
 
     def to_knx(self) -> bytearray:
         """Serialize to KNX/IP raw data."""
+        if not 0 <= self.channel <= 63:
+            raise ConversionError("Channel out of range.")
+
         payload = struct.pack("!BB", self.channel, self.count)
 
         return encode_cmd_and_payload(
